@@ -1325,6 +1325,12 @@ impl<'a> Case<'a> {
             }
             if self.verbose {
                 println!("[{:>10}us] poll{}: rx {} frames, tx {} frames", self.now, if blocked { " (device blocked)" } else { "" }, rxn, nframes);
+                let pa = self.host.iface.poll_at(crate::sim::inst(self.now), &self.host.sockets);
+                let qs: Vec<String> = self.socks.iter().map(|s| match s.kind {
+                    Kind::Udp => format!("#{}:q{}", s.idx, self.host.sockets.get::<udp::Socket>(s.handle).send_queue()),
+                    _ => format!("#{}", s.idx),
+                }).collect();
+                println!("             poll_at {:?} queues {}", pa.map(|i| i.total_micros()), qs.join(" "));
             }
             rounds += 1;
             if blocked || self.host.dev.rx.is_empty() || rounds > 200 {
@@ -1551,12 +1557,17 @@ impl<'a> Case<'a> {
         let never_before = self.net.never_requests;
         let mut idle = 0;
         let mut rounds = 0;
-        while idle < 8 && rounds < 400 && self.out.violations.is_empty() {
+        // patience: at least 8 idle polls AND 6 s without any frame.  The discovery rate limiter is
+        // interface-wide (1 s) and a socket whose request was refused by it waits another second
+        // on its own; two such waits can interleave, so a couple of seconds of silence prove nothing.
+        let mut last_progress = self.now;
+        while (idle < 8 || self.now - last_progress < 6_000_000) && rounds < 400 && self.out.violations.is_empty() {
             rounds += 1;
             let before = (self.wire.idx, self.net.answered);
             self.do_poll();
             if (self.wire.idx, self.net.answered) != before || !self.net.replies.is_empty() {
                 idle = 0;
+                last_progress = self.now;
                 // let answers and follow-up fragments through promptly
                 self.now += self.rng.range(1, 20_000) as Micros;
             } else {
